@@ -1,5 +1,6 @@
-//! C15 replay runner: a reduced `hjs` (one fresh context per scenario, one `eval` per step, native
-//! `print`) built with boa's `experimental` feature (ArrayBuffer transfer/detached) and with the host
+//! C15 replay runner: a reduced `hjs` (one `eval` per step, native `print`; a context serves HBUF_GROUP
+//! (default 64) consecutive scenarios, each of which rebuilds its own JS-level state; HBUF_GROUP=1 gives
+//! a fresh context per scenario and is used to confirm failures) built with boa's `experimental` feature (ArrayBuffer transfer/detached) and with the host
 //! function `detachBuffer(buf)` (= DetachArrayBuffer(buf, undefined), what test262's `$262.detachArrayBuffer`
 //! does). One JSON scenario per line `{"id", "steps": ["src", …]}` -> `{"id", "steps": [{"out": […], "c": completion}]}`;
 //! flushed per scenario so that an abort of the process is attributed to the scenario that caused it.
@@ -22,26 +23,64 @@ fn detach_buffer(_this: &JsValue, args: &[JsValue], _ctx: &mut Context) -> JsRes
     Ok(JsValue::null())
 }
 
-fn run_scenario(sc: &Value) -> Value {
+fn new_context() -> Context {
+    let mut ctx = ContextBuilder::new().build().expect("context");
+    install_print(&mut ctx);
+    let f = boa_engine::object::FunctionObjectBuilder::new(ctx.realm(), NativeFunction::from_fn_ptr(detach_buffer))
+        .name(js_string!("detachBuffer"))
+        .length(1)
+        .build();
+    ctx.register_global_property(js_string!("detachBuffer"), f, Attribute::empty())
+        .expect("detachBuffer registration");
+    ctx
+}
+
+fn run_scenario(ctx: &mut Context, sc: &Value) -> Value {
     let mut steps_out = Vec::new();
-    {
-        let mut ctx = ContextBuilder::new().build().expect("context");
-        install_print(&mut ctx);
-        let f = boa_engine::object::FunctionObjectBuilder::new(ctx.realm(), NativeFunction::from_fn_ptr(detach_buffer))
-            .name(js_string!("detachBuffer"))
-            .length(1)
-            .build();
-        ctx.register_global_property(js_string!("detachBuffer"), f, Attribute::empty())
-            .expect("detachBuffer registration");
-        let _ = take_out();
-        for step in sc.get("steps").and_then(Value::as_array).cloned().unwrap_or_default() {
-            let src = step.as_str().unwrap_or("");
-            let r = ctx.eval(Source::from_bytes(src));
-            let c = render_completion(&r, &mut ctx);
-            steps_out.push(json!({"out": take_out(), "c": c}));
-        }
+    let _ = take_out();
+    for step in sc.get("steps").and_then(Value::as_array).cloned().unwrap_or_default() {
+        let src = step.as_str().unwrap_or("");
+        let r = ctx.eval(Source::from_bytes(src));
+        let c = render_completion(&r, ctx);
+        steps_out.push(json!({"out": take_out(), "c": c}));
     }
     json!({"id": sc.get("id").cloned().unwrap_or(Value::Null), "steps": steps_out})
+}
+
+fn emit(res: &Value) {
+    let stdout = std::io::stdout();
+    let mut lock = stdout.lock();
+    serde_json::to_writer(&mut lock, res).expect("write");
+    lock.write_all(b"\n").expect("write");
+    lock.flush().expect("flush");
+}
+
+/// Runs a group of scenarios on one worker thread. The context is shared by the scenarios of the group
+/// (every scenario starts by re-creating its JS-level state); after a panic a fresh context is used.
+fn run_group(group: Vec<Value>) {
+    let done = isolated(move || {
+        let mut ctx: Option<Context> = None;
+        for sc in &group {
+            let id = sc.get("id").cloned().unwrap_or(Value::Null);
+            let mut c = ctx.take().unwrap_or_else(new_context);
+            let r = std::panic::catch_unwind(std::panic::AssertUnwindSafe(|| run_scenario(&mut c, sc)));
+            match r {
+                Ok(v) => {
+                    emit(&v);
+                    ctx = Some(c);
+                }
+                Err(p) => {
+                    let loc = LAST_PANIC.with(|c| c.borrow().clone());
+                    emit(&json!({"id": id, "panic": format!("{} @ {}", panic_message(&p), loc)}));
+                    std::mem::forget(c);
+                }
+            }
+        }
+    });
+    if let Err(m) = done {
+        eprintln!("worker thread failed: {m}");
+        std::process::exit(3);
+    }
 }
 
 fn main() {
@@ -52,7 +91,8 @@ fn main() {
     } else {
         Box::new(std::io::BufReader::new(std::io::stdin()))
     };
-    let stdout = std::io::stdout();
+    let group_size: usize = std::env::var("HBUF_GROUP").ok().and_then(|s| s.parse().ok()).unwrap_or(64);
+    let mut group = Vec::new();
     for line in input.lines() {
         let line = line.expect("read");
         if line.trim().is_empty() {
@@ -65,28 +105,12 @@ fn main() {
                 std::process::exit(2);
             }
         };
-        let id = sc.get("id").cloned().unwrap_or(Value::Null);
-        let res = match isolated(move || {
-            let r = std::panic::catch_unwind(std::panic::AssertUnwindSafe(|| run_scenario(&sc)));
-            match r {
-                Ok(v) => v,
-                Err(p) => {
-                    let loc = LAST_PANIC.with(|c| c.borrow().clone());
-                    json!({"panic": format!("{} @ {}", panic_message(&p), loc)})
-                }
-            }
-        }) {
-            Ok(mut v) => {
-                if v.get("panic").is_some() {
-                    v["id"] = id;
-                }
-                v
-            }
-            Err(m) => json!({"id": id, "panic": m}),
-        };
-        let mut lock = stdout.lock();
-        serde_json::to_writer(&mut lock, &res).expect("write");
-        lock.write_all(b"\n").expect("write");
-        lock.flush().expect("flush");
+        group.push(sc);
+        if group.len() >= group_size {
+            run_group(std::mem::take(&mut group));
+        }
+    }
+    if !group.is_empty() {
+        run_group(group);
     }
 }
